@@ -484,7 +484,19 @@ class FComponent(Sequence):
     _extra_kwargs = ("conversion", "expression", "is_tstring")
 
     def __new__(cls, s=None, conversion=None, expression=None, is_tstring=False):
-        value = super().__new__(cls, s)
+        s = tuple(s or ())
+        value = super().__new__(
+            cls,
+            # Join adjacent string nodes in the format spec, as
+            # `FString` does.
+            s[:1] + tuple(
+                node
+                for is_string, components in groupby(s[1:], lambda x: isinstance(x, String))
+                for node in (
+                    [reduce(operator.add, components)] if is_string else components
+                )
+            ),
+        )
         value.conversion = conversion
         value.expression = expression
         value.is_tstring = is_tstring
